@@ -21,6 +21,8 @@ pub struct Env {
     pub fake_pid: Option<u32>,
     pub junk: Vec<(String, String)>,
     pub aslr_off: bool,
+    #[serde(default)]
+    pub cwd: Option<String>,
 }
 
 impl Env {
@@ -31,6 +33,7 @@ impl Env {
             fake_pid: None,
             junk: vec![],
             aslr_off: true,
+            cwd: None,
         }
     }
 }
@@ -81,6 +84,9 @@ pub fn run_child(ctx: &Ctx, env: &Env, sched: &Schedule) -> Result<(Vec<Obs>, St
     }
     for (k, v) in &env.junk {
         cmd.env(k, v);
+    }
+    if let Some(d) = &env.cwd {
+        cmd.current_dir(d);
     }
     cmd.stdin(Stdio::piped()).stdout(Stdio::piped()).stderr(Stdio::piped());
     let mut child = cmd.spawn().map_err(|e| format!("spawn: {e}"))?;
@@ -165,6 +171,9 @@ impl RefCache {
 // ------------------------------------------------------------------ session generation
 
 pub struct Corpus {
+    /// groups of harvested keys that share (derive, type identifier) but differ in body:
+    /// what a cache keyed too coarsely would confuse
+    pub collisions: Vec<Vec<usize>>,
     pub base: Vec<Key>,
     pub faults: Vec<Key>,
     pub derives: Vec<&'static str>,
@@ -204,6 +213,7 @@ fn gen_env(r: &mut Rng) -> Env {
         fake_pid: if r.chance(1, 2) { Some(2 + (r.next() % 60000) as u32) } else { None },
         junk: junk_env(r),
         aslr_off: true,
+        cwd: if r.chance(1, 2) { Some(r.pick(&["/", "/tmp", "/usr/lib"]).to_string()) } else { None },
     }
 }
 
@@ -239,6 +249,16 @@ pub fn gen_session(seed: u64, index: u64, c: &Corpus) -> Session {
             probes.push(keys.len());
         }
         keys.push(k);
+    }
+    // same derive, same type name, different body — served close together
+    if !c.collisions.is_empty() {
+        for _ in 0..r.below(3) {
+            let g = r.pick(&c.collisions);
+            for i in g.iter().take(3) {
+                probes.push(keys.len());
+                keys.push(c.base[*i].clone());
+            }
+        }
     }
     // cross pairs: a harvested item under a derive it does not list (mostly diagnostics / panics)
     for _ in 0..r.below(6) {
@@ -584,6 +604,9 @@ pub fn minimise(ctx: &Ctx, refs: &RefCache, d: &Divergence, s: &Session, seed: u
     };
     let mut e = env_min.clone();
     e.junk.clear();
+    try_env(e, &mut env_min, &mut steps);
+    let mut e = env_min.clone();
+    e.cwd = None;
     try_env(e, &mut env_min, &mut steps);
     let mut e = env_min.clone();
     e.clock_base = None;
